@@ -1672,8 +1672,8 @@ func (w *transformingWriter) Close() error {
 				w.rw.reportError(err)
 			}
 		}
-	} else if w.buffer != nil && w.buffer.Len() > 0 {
-		// Unfinished body!
+	} else if w.buffer != nil && (w.buffer.Len() > 0 || !w.writingEnvelope) {
+		// Unfinished body! (An announced message with no payload bytes yet is unfinished too.)
 		if w.writingEnvelope {
 			w.rw.reportError(fmt.Errorf("handler only wrote %d out of %d bytes of message envelope", w.buffer.Len(), envelopeLen))
 		} else {
